@@ -30,6 +30,10 @@ def make_alphabet(names=('x', 'y'), trivia=True):
         a.append(('space', lexer.TokSpace, b' '))
         a.append(('newline', lexer.TokNewline, b'\n'))
         a.append(('comment', lexer.TokComment, b'--c'))
+        # the other two line ends the lexer produces: same kind for the
+        # grammar, different token data
+        a.append(('newline', lexer.TokNewline, b'\r\n'))
+        a.append(('newline', lexer.TokNewline, b'\r'))
     return a
 
 
